@@ -66,12 +66,17 @@ func (ex *Exec) call(fr *Frame, cc *ssa.CallCommon, in ssa.Instruction, st *Stat
 		ex.havocAll(st)
 		return mkRes("r_fn"), cur
 	}
-	if callee.Signature.Recv() != nil && len(args) > 0 {
-		// pointer receiver nil check is the callee's business; value receivers were dereferenced by the caller
+	if callee.Signature.Recv() != nil && len(args) > 0 && ex.W.inModule(pkgOf(callee)) && !opaquePkg(pkgOf(callee)) {
+		// every module method is verified under "pointer receiver is non-nil": check it at the call site
+		if _, isPtr := args[0].T.Underlying().(*types.Pointer); isPtr {
+			ok := ex.nonNil(args[0])
+			ex.oblige("nil", "recv:"+ex.anchor(fr, in, in.Pos()), cur, ok, in.Pos(), fr.prefix)
+			cur = c.And(cur, ok)
+		}
 	}
 	key := ex.Prog.FuncKey(callee)
 	if !ex.W.inModule(pkgOf(callee)) || len(callee.Blocks) == 0 || opaquePkg(pkgOf(callee)) {
-		return ex.externalCall(fr, callee, args, st, cur, mkRes, in)
+		return ex.externalCall(fr, callee, args, st, cur, mkRes, in, cc)
 	}
 	pc := ex.Prog.ContractsFor(callee)
 	var fc *FuncContract
@@ -202,13 +207,16 @@ func (ex *Exec) pureIfaceMethod(cc *ssa.CallCommon) bool {
 
 // externalCall models a call into code outside the module: results unconstrained,
 // module-typed heap untouched except elements of slice arguments and cells behind pointer arguments.
-func (ex *Exec) externalCall(fr *Frame, callee *ssa.Function, args []Val, st *State, cur *smt.Term, mkRes func(string) Val, in ssa.Instruction) (Val, *smt.Term) {
+func (ex *Exec) externalCall(fr *Frame, callee *ssa.Function, args []Val, st *State, cur *smt.Term, mkRes func(string) Val, in ssa.Instruction, cc *ssa.CallCommon) (Val, *smt.Term) {
 	c := ex.W.C
 	full := callee.String()
 	if r, ok := ex.knownExternal(full, args, st, cur, mkRes); ok {
 		return r, cur
 	}
-	for _, a := range args {
+	for ai, a := range args {
+		if ai < len(cc.Args) && ex.boxedExternal(cc.Args[ai]) {
+			continue // interface holding a value of an external type: no module code can run through it
+		}
 		switch t := a.T.Underlying().(type) {
 		case *types.Slice:
 			if a.Tm != nil && !readOnlySliceFuncs[full] {
@@ -244,6 +252,25 @@ func (ex *Exec) externalCall(fr *Frame, callee *ssa.Function, args []Val, st *St
 		}
 	}
 	return mkRes("r_" + callee.Name()), cur
+}
+
+// boxedExternal: the argument is an interface made from a value whose type is declared outside the module.
+func (ex *Exec) boxedExternal(v ssa.Value) bool {
+	mi, ok := v.(*ssa.MakeInterface)
+	if !ok {
+		return false
+	}
+	t := mi.X.Type()
+	if pt, ok := t.(*types.Pointer); ok {
+		t = pt.Elem()
+	}
+	switch tt := t.(type) {
+	case *types.Named:
+		return !ex.W.inModule(tt.Obj().Pkg())
+	case *types.Basic:
+		return true
+	}
+	return false
 }
 
 var readOnlySliceFuncs = map[string]bool{
@@ -285,6 +312,18 @@ func (ex *Exec) knownExternal(full string, args []Val, st *State, cur *smt.Term,
 	case "unicode/utf8.DecodeRuneInString", "unicode/utf8.DecodeRune", "unicode/utf8.DecodeLastRuneInString", "unicode/utf8.DecodeLastRune":
 		r := mkRes("decoderune")
 		ex.assume(c.And(c.Le(c.IntLit(0), r.Tup[1].Tm), c.Le(r.Tup[1].Tm, c.IntLit(4))))
+		return r, true
+	case "strings.Index", "strings.IndexByte", "strings.IndexRune", "strings.LastIndex":
+		r := mkRes("index")
+		ls := ex.strLen(args[0].Tm)
+		ex.assume(c.Le(c.IntLit(0), ls))
+		width := c.IntLit(1)
+		if isString(args[1].T) {
+			width = ex.strLen(args[1].Tm)
+			ex.assume(c.Le(c.IntLit(0), width))
+		}
+		ex.assume(c.Or(c.Eq(r.Tm, c.IntLit(-1)), c.And(c.Le(c.IntLit(0), r.Tm), c.Le(c.Add(r.Tm, width), ls))))
+		ex.recordDepAssume("strings.Index returns -1 or an offset i with i+len(sep) <= len(s)")
 		return r, true
 	case "unicode/utf8.RuneLen":
 		r := mkRes("runelen")
